@@ -300,7 +300,7 @@ def _check_intervals(sim, ev, V, poll, label):
     for e in ev:
         if e.get("timeout_raised"):
             el = e["ret_t"] - e["call_t"]
-            if not (e["timeout"] - 1e-9 <= el <= e["timeout"] + poll + 0.05):
+            if not (el <= e["timeout"] + poll + 0.05):      # stated: "within its configured timeout" - an upper bound only
                 V.append({"clause": "K.timeout_time", "msg": f"{label}: {e['actor']} TimeoutError after {el:.3f}s with timeout "
                                                              f"{e['timeout']}s"})
         elif e.get("ok") and "ret_t" in e:
@@ -399,7 +399,7 @@ def _check_s3cas(sim, ev, V, paused):
             continue
         if e.get("timeout_raised"):
             el = e["ret_t"] - e["call_t"]
-            if not (e["timeout"] - 1e-9 <= el <= e["timeout"] + 3.0):
+            if not (el <= e["timeout"] + 3.0):      # stated: "within its configured timeout" - an upper bound only
                 V.append({"clause": "K.timeout_time", "msg": f"s3cas: {e['actor']} TimeoutError after {el:.2f}s (timeout {e['timeout']}s)"})
 
 
